@@ -301,7 +301,7 @@ def eq_polarity_sweep(ck, c, scope, name_pat, rule="CMP", exceptions=None):
 _CG_CACHE = {}
 
 
-def rejecting_checks_by_module(c, scope, name_pat):
+def rejecting_checks_by_module(c, scope, name_pat, unconditional=None):
     """{module: number of comparisons that can refuse} over the verifier-side functions of a scope and every function of
     the same scope they (transitively) call - so that moving a check into a helper does not change the count"""
     from vlib.callgraph import CallGraph
@@ -324,10 +324,30 @@ def rejecting_checks_by_module(c, scope, name_pat):
         mod = "::".join((mm.group(1) if mm else "?").split("::")[:3])
         for b in c.get_all(p):
             f = Fn(b)
+            acc, _ = f.accept_points()
+            if not name_pat.search(q):
+                acc = []            # the unconditional count is taken over the verifier-named functions themselves
             for cx in rules.comparisons(f):
                 rel, d = rules.cmp_rejects(f, cx)
                 if rel is not None:
                     out[mod] = out.get(mod, 0) + 1
+                    br = rules.cmp_branches(f, cx)
+                    sb = br[0] if br else cx["bb"]
+                    if unconditional is not None and acc and all(f.dominates(sb, a) for a in acc):
+                        unconditional[mod] = unconditional.get(mod, 0) + 1
+            if unconditional is not None and acc:
+                # enforced fallible calls (`x.verify(..)?`, `if !check(..) { return false }`) that every accepting path passes
+                for bi in sorted(f.reachable()):
+                    t = f.term(bi)
+                    if t["k"] != "call" or not t.get("dest") or not re.search(r"^(bool|std::result::Result<|std::option::Option<)", f.locals[t["dest"][0]]):
+                        continue
+                    if not re.search(r"concordium_base::", t["f"].get("path", "")) and not re.search(r"concordium_base::", t["f"].get("resolved", "") or ""):
+                        continue
+                    if not all(f.dominates(bi, a) for a in acc):
+                        continue
+                    r = rules.enforcement(f, bi)
+                    if r["status"] in ("enforced", "propagated"):
+                        unconditional[mod] = unconditional.get(mod, 0) + 1
     return out
 
 
@@ -337,10 +357,19 @@ def rejecting_checks_floor(ck, c, scope, name_pat, spec_key, rule="CMP"):
     import json
     path = os.path.join(os.path.dirname(os.path.dirname(os.path.abspath(__file__))), "spec", "verifier_checks.json")
     ref = json.load(open(path)).get(spec_key, {}) if os.path.exists(path) else {}
-    cur = rejecting_checks_by_module(c, scope, name_pat)
+    unc = {}
+    cur = rejecting_checks_by_module(c, scope, name_pat, unc)
     for mod, nref in sorted(ref.items()):
         ck.ob(rule, mod, "refusing-comparisons-not-fewer", cur.get(mod, 0) >= nref,
               "%d comparisons that can refuse in the verifier functions of this module (reference %d)" % (cur.get(mod, 0), nref), "")
+    # the same for checks that EVERY accepting path of their function passes (refusing comparisons and enforced calls that
+    # dominate all accepting returns): a check moved behind a condition keeps the first count and lowers this one
+    uref = json.load(open(path)).get(spec_key + "#unconditional", {}) if os.path.exists(path) else {}
+    for mod, nref in sorted(uref.items()):
+        ck.ob(rule, mod, "unconditional-checks-not-fewer", unc.get(mod, 0) >= nref,
+              "%d checks that every accepting path of their function passes (reference %d)" % (unc.get(mod, 0), nref) if unc.get(mod, 0) >= nref else
+              "%d checks are passed by every accepting path of their function, reference %d: a check was removed or moved behind a condition" % (unc.get(mod, 0), nref), "")
+    ck.extra["unconditional_checks"] = unc
     return cur
 
 
